@@ -214,6 +214,8 @@ def attribute(m, mod='l1'):
             if mod == 'l1' and m['kind'] == 'state' and comps[0] == 'bal' and len(comps) > 1 and comps[1].startswith('esc') and tb is not None and comps[1][3:] != tb:
                 tags.add('C01')
         tags |= set(T['event_all_fields'].get(et, []))
+        if et == 'Query':
+            tags |= set(T.get('query', {}).get(ev.get('q'), []))
         if mod == 'val' and et == 'EndBlock' and (m.get('spec_resp') or {}).get('planned'):
             tags.add('C14')      # the block that applies an executor-change plan
         why = '%s of %s differs in %s' % ('post-state' if m['kind'] == 'state' else 'response', et, ','.join((m.get('fields') or [])[:6]))
@@ -232,6 +234,9 @@ def attribute(m, mod='l1'):
     elif m['kind'] == 'invariant':
         tags |= set(m.get('tags') or [])
         why = 'invariant %s fails on an observed state' % m.get('name')
+    if et == 'Query' and m['kind'] in ('result', 'resp', 'state') and any(isinstance(x, dict) and (x.get('e') or x).get('type') == 'ExportImport' for x in (m.get('path') or [])):
+        tags.add('C16')          # C16: the re-imported chain answers every later query as the original would
+        why += ' (after a genesis round trip)'
     return tags, why
 
 
